@@ -77,6 +77,7 @@ struct Op {
     std::vector<int64_t> n;  // numeric arguments
     std::string s;           // string argument
     std::vector<Fault> faults;
+    int g = 0;               // minimisation group: >0 ops of one group are dropped together, 0 independent, <0 structural (kept)
     int64_t arg(size_t i, int64_t def = 0) const { return i < n.size() ? n[i] : def; }
 };
 struct Plan {
